@@ -1442,3 +1442,78 @@ def m_and_modify(it, argv, text):
 def m_entry_key(it, argv, text):
     ent = it.deref_all(argv[0])
     return RefV(it.alloc(ent.f[0].data[1]))
+
+
+@model('str::rsplit')
+def m_rsplit(it, argv, text):
+    s = it.as_str(argv[0]).b
+    kind, p = pat_kind(it, argv[1])
+    return IterV('list', (tuple(reversed(pat_split(it, s, kind, p))), 0))
+
+
+@model('str::rsplitn')
+def m_rsplitn(it, argv, text):
+    s = it.as_str(argv[0]).b
+    kind, p = pat_kind(it, argv[2])
+    n = argv[1]
+    if n == 0:
+        return IterV('list', ((), 0))
+    parts = []
+    end = len(s)
+    while len(parts) < n - 1:
+        r = pat_rfind(it, s[:end], kind, p)
+        if r is None:
+            break
+        parts.append(StrV(s[r[0] + r[1]:end]))
+        end = r[0]
+    parts.append(StrV(s[:end]))
+    return IterV('list', (tuple(parts), 0))
+
+
+@model('str::matches')
+def m_matches(it, argv, text):
+    s = it.as_str(argv[0]).b
+    kind, p = pat_kind(it, argv[1])
+    out = []
+    pos = 0
+    while True:
+        r = pat_find(it, s, kind, p, pos)
+        if r is None:
+            break
+        out.append(StrV(s[r[0]:r[0] + r[1]]))
+        pos = r[0] + max(r[1], 1)
+        if pos > len(s):
+            break
+    return IterV('list', (tuple(out), 0))
+
+
+@model('str::match_indices')
+def m_match_indices(it, argv, text):
+    s = it.as_str(argv[0]).b
+    kind, p = pat_kind(it, argv[1])
+    out = []
+    pos = 0
+    while True:
+        r = pat_find(it, s, kind, p, pos)
+        if r is None:
+            break
+        out.append(TupleV((r[0], StrV(s[r[0]:r[0] + r[1]]))))
+        pos = r[0] + max(r[1], 1)
+        if pos > len(s):
+            break
+    return IterV('list', (tuple(out), 0))
+
+
+@model('str::split_at')
+def m_split_at(it, argv, text):
+    s = it.as_str(argv[0]).b
+    k = argv[1]
+    if k > len(s) or not is_boundary(s, k):
+        raise RustPanic("split_at: not a char boundary")
+    return TupleV((StrV(s[:k]), StrV(s[k:])))
+
+
+@model('str::chars_count', 'str::is_ascii')
+def m_str_is_ascii(it, argv, text):
+    s = it.as_str(argv[0]).b
+    return all((b < 128) if isinstance(b, int) else True for b in s)
